@@ -86,6 +86,8 @@ class CThread(object):
 
     def start(self):
         S.yield_point(("start", "-", self.tid))
+        if S.threads[self.tid]["state"] != "created":
+            self.real.start()                 # raises RuntimeError ('threads can only be started once') exactly like threading does
         S.threads[self.tid]["state"] = "running"
         self.real.start()
 
